@@ -130,10 +130,15 @@ def verify_unit_worker(qualname: str) -> dict:
         # vacuity guard: the assumptions of the last obligation on every path must be satisfiable
         # (`unknown` is accepted: with quantified axioms z3 rarely answers sat)
         last = {}
-        for ob in r.obligations:
+        bad_paths = set()
+        for ob, rec_ in zip(r.obligations, out["obligations"]):
             last[ob.path] = ob
+            if rec_["status"] != "discharged":
+                bad_paths.add(ob.path)  # a goal that failed was assumed afterwards: the rest of that path is vacuous by construction
         vac = []
         for path, ob in last.items():
+            if path in bad_paths:
+                continue
             s = z3.Solver()
             s.set("timeout", 1500)
             s.add(*r.axioms)
